@@ -145,11 +145,19 @@ package keeper
 //@ ensures [zero_reward_does_nothing] reward == 0 ==> err == nil && nothing_written()
 //@ ensures [amounts_passed_on_sum_to_the_reward_exactly] err == nil && reward != 0 && called(AllocateTip) ==> argsum(AllocateTip, amount) == reward * 1000000000000000000
 //@ ensures [pool_debited_exactly_the_reward] err == nil && module(fromPool) != module("tips_escrow_pool") ==> bank.bal[module(fromPool)] == old(bank.bal[module(fromPool)]) - reward && bank.bal[module("tips_escrow_pool")] == old(bank.bal[module("tips_escrow_pool")]) + reward
+//@ requires [a_reporter_has_one_power_in_all_given_aggregates] forall j in [0, len(reports)) :: forall m in [0, len(reports[j].Reporters)) :: reports[j].Reporters[m].Power == someint("power_of", reports[j].Reporters[m].Reporter)
+//@ loop 0 "for _, report := range reports"
+//@ loop 0 invariant [collected_power_is_the_reporters_own] forall a string :: has(reportersMap, a) ==> reportersMap[a].Power == someint("power_of", a)
+//@ loop 1 "for _, r := range report.Reporters"
+//@ loop 1 invariant [collected_power_is_the_reporters_own] forall a string :: has(reportersMap, a) ==> reportersMap[a].Power == someint("power_of", a)
 //@ loop 3 "for i, reporter := range sortedReporters"
 //@ loop 3 invariant [paid_so_far_is_total_distributed] (i < len(sortedReporters) ==> argsum(AllocateTip, amount) == totaldist) && (i == len(sortedReporters) && i > 0 ==> argsum(AllocateTip, amount) == reward * 1000000000000000000) && (i == 0 ==> !called(AllocateTip) && totaldist == 0)
 //@ loop 2 "for addr, data := range reportersMap"
 //@ loop 2 invariant [collected_addresses_are_visited_keys] forall j in [0, len(sortedReporters)) :: seen(sortedReporters[j].address)
+//@ loop 2 invariant [collected_power_is_the_reporters_own] forall a string :: has(reportersMap, a) ==> reportersMap[a].Power == someint("power_of", a)
+//@ loop 2 invariant [share_weight_is_the_reporters_own_power] forall j in [0, len(sortedReporters)) :: sortedReporters[j].data.Power == someint("power_of", sortedReporters[j].address)
 //@ loop 2 invariant [collected_addresses_are_distinct] forall a in [0, len(sortedReporters)) :: forall b in [0, len(sortedReporters)) :: a != b ==> sortedReporters[a].address != sortedReporters[b].address
+//@ loop 3 invariant [share_weight_is_the_reporters_own_power] forall j in [0, len(sortedReporters)) :: sortedReporters[j].data.Power == someint("power_of", sortedReporters[j].address)
 //@ loop 3 invariant [payout_order_is_strictly_by_address] forall a in [0, len(sortedReporters)) :: forall b in [0, len(sortedReporters)) :: a < b ==> sortedReporters[a].address < sortedReporters[b].address
 
 // ---- aggregate history lookups (C08) ----
